@@ -129,7 +129,7 @@ pub fn run(run: &mut Run) {
     run.campaign("ladders", chaos::ladder_strategy, run.tier.pick(200, 5_000), check, |_c, _v| None);
     // both generators against lopdf compiled without optimisation (what `cargo test` and debug builds of a caller run)
     let unopt = || prop_oneof![2 => chaos::graph_strategy(), 1 => chaos::chain_strategy()].prop_map(|g| UnoptimisedCase { unoptimised: g });
-    run.campaign("unoptimised-build", unopt, run.tier.pick(500, 40_000), check_unoptimised, |_c, _v| None);
+    run.campaign("unoptimised-build", unopt, run.tier.pick(500, 8_000), check_unoptimised, |_c, _v| None);
     crate::engine::libfuzzer::phase(run, super::fuzzdec::TARGETS_C13, &|_entry, payload| serde_json::to_value(RawFileCase { raw_file: crate::model::B(payload.to_vec()) }).unwrap());
     flush_known(run);
 }
